@@ -99,6 +99,12 @@ func (this *NodesManager) tryJoin(ctx context.Context, address string) error {
 	}
 	defer conn.Close()
 
+	// Learn the addresses of the current members first. A member may need this node's
+	// answers (votes) to elect the leader that can process the join below.
+	if err := this.learnNodes(ctx, pb.NewNodesManagerClient(conn)); err != nil {
+		return err
+	}
+
 	nodesStream, err := pb.NewNodesManagerClient(conn).AddNode(ctx, &pb.Node {
 		Id: this.clusterConn.Id(),
 		Address: this.clusterConn.Address(),
@@ -118,4 +124,21 @@ func (this *NodesManager) tryJoin(ctx context.Context, address string) error {
 		this.clusterConn.AddNode(node.GetId(), node.GetAddress())
 	}
 	return nil
+}
+
+func (this *NodesManager) learnNodes(ctx context.Context, client pb.NodesManagerClient) error {
+	nodesStream, err := client.ListNodes(ctx, &pb.EmptyMessage{})
+	if err != nil {
+		return err
+	}
+	for {
+		node, err := nodesStream.Recv()
+		if err == io.EOF {
+			return nil
+		}
+		if err != nil {
+			return err
+		}
+		this.clusterConn.AddNode(node.GetId(), node.GetAddress())
+	}
 }
